@@ -473,6 +473,16 @@ def parseLoop : Bool → List RRset → List RR → List RRset
 whose answer records are `recs`, in wire order -/
 def parseAnswer (oneRR : Bool) (recs : List RR) : List RRset := parseLoop oneRR [] recs
 
+/-- a response message as it is on the wire: header fields and the answer records in order -/
+structure WireMsg where
+  rcode : Nat
+  question : List (Name × Nat)
+  recs : List RR
+  deriving DecidableEq, Repr
+
+/-- `dns.message.from_wire(wire, xfr=True, one_rr_per_rrset=oneRR)` -/
+def readMsg (oneRR : Bool) (w : WireMsg) : Msg := ⟨w.rcode, w.question, parseAnswer oneRR w.recs⟩
+
 /-! ## `dns.query.inbound_xfr`: which query, and UDP first with a TCP retry -/
 
 inductive UdpMode where
